@@ -5,8 +5,9 @@ import SqlModel.Filters.FNode
 Children first (`depth + 1`), then the handler chosen by the lower-cased class name
 (`_stripws_identifierlist`, `_stripws_parenthesis`, otherwise `_stripws_default`), then at `depth == 0` one
 trailing whitespace token is popped.  The default handler does not delete whitespace tokens: it overwrites their
-value with `' '` or `''` (so empty-valued tokens stay in the tree).  `tokens[1]` / `tokens[-2]` /
-`tokens[-2].tokens[-1]` raise `IndexError` when the list is too short.
+value with `' '` or `''` (so empty-valued tokens stay in the tree).  Since repo commit 4e9e704 the loops over `tokens[1]` /
+`tokens[-2]` are guarded by `len(tokens) > 2`; `tokens[-2].tokens[-1]` still raises `IndexError` when the last-but-one child
+is a group that consists of whitespace only.
 -/
 namespace Sql
 
